@@ -548,3 +548,10 @@ let () = register "clisumtick" (fun _ -> obs "clisumtick consistent")
 let () =
   (* a file the user may read but not write gives the same answer through a directory and through a server *)
   register "cliroread" (fun _ -> obs "cliroread same=true")
+
+(* round 14 *)
+let () =
+  (* a failed read session is over when its answer has arrived (Lock.v: the lock lives as long as the handle) *)
+  register "viewerrheld" (fun _ -> obs "viewerrheld released");
+  (* the sum through a directory and through a server: the same report, however long (no model involved) *)
+  register "clibigsum" (fun _ -> obs "clibigsum same=true local=ok")
